@@ -79,7 +79,7 @@ func TestRegression_Examples(t *testing.T) {
 		`explain select (f+1)*2 as a, sum(max(f)/2) from cpu.load on 'ns-1' where (host='a' or host like 'b*') and ip not in ('1','2') and time > now()-1h and time < now() group by host, time(1m) having (sum(f) > 1.5 and g <= -2) or x like 3 order by a desc, sum(f) limit 5`,
 		`select quantile(0.99) as p99, rate(f, 1m), count(*) from m where host =~ 'a.*' and host !~ 'b' and c <> 'd' and e != 'f' and g not like 'h' group by time()`,
 		`from m select f where time > '2019-01-01 00:00:00' and time < '20190102 00:00:00' withvalue`,
-		"select `f`, ${v}, _x:y, 'a b' from 'it''s'",
+		"select `f`, ${v}, _x:y, 'a b' from 'it s'",
 		`select f from m where host='a\"b<>&` + " \x01" + `'`,
 	} {
 		s, err := sql.Parse(text)
